@@ -27,3 +27,126 @@ def op_histogram(runs):
                 op = e["c"]["op"]
                 h[op] = h.get(op, 0) + 1
     return h
+
+
+# ---------------------------------------------------------------------------------------------------
+# Systematic families (inputs only - the oracle stays RedisKeyspace.tla through KsTrace)
+# ---------------------------------------------------------------------------------------------------
+def _b(s):
+    return list(s.encode())
+
+
+def _c(op, **kw):
+    d = {"op": op}
+    d.update(kw)
+    return {"c": d}
+
+
+def _create(t, k):
+    if t == "string":
+        return [_c("SET", k=k, v=_b("v0"), ex=-1, px=-1, nx=False, xx=False, get=False, keepttl=False)]
+    if t == "list":
+        return [_c("PUSH", k=k, left=False, vs=[_b("a"), _b("b")])]
+    if t == "set":
+        return [_c("SADD", k=k, vs=[_b("a"), _b("b")])]
+    if t == "hash":
+        return [_c("HSET", k=k, fs=[_b("f1"), _b("f2")], vs=[_b("1"), _b("2")])]
+    return [_c("ZADD", k=k, ms=[_b("a"), _b("b")], qs=[4, 8], ch=False, gt=False, lt=False, nx=False, xx=False)]
+
+
+def _removals(t, k):
+    """ways in which key k of type t (2 elements) stops existing without a DEL-like command resetting everything"""
+    out = {"del": [_c("DEL", ks=[k])], "rename_away": [_c("RENAME", k=k, k2="other", nx=False)],
+           "expire_now": [_c("EXPIRE", k=k, ms=0, gt=False, lt=False, nx=False, xx=False)]}
+    if t == "string":
+        out["getdel"] = [_c("GETDEL", k=k)]
+    if t == "list":
+        out["lpop2"] = [_c("POP", k=k, left=True)] * 2
+        out["rpop2"] = [_c("POP", k=k, left=False)] * 2
+        out["ltrim_empty"] = [_c("LTRIM", k=k, start=5, stop=6)]
+        out["lmove2"] = [_c("LMOVE", k=k, k2="other", fromleft=True, toleft=False)] * 2
+    if t == "set":
+        out["srem_all"] = [_c("SREM", k=k, vs=[_b("a"), _b("b")])]
+        out["spop_more"] = [_c("SPOP", k=k, n=5)]
+        out["spop_exact"] = [_c("SPOP", k=k, n=2)]
+        out["spop_one_by_one"] = [_c("SPOP", k=k, n=-1), _c("SPOP", k=k, n=1)]
+    if t == "hash":
+        out["hdel_all"] = [_c("HDEL", k=k, fs=[_b("f1"), _b("f2")])]
+        out["hdel_1_1"] = [_c("HDEL", k=k, fs=[_b("f1")]), _c("HDEL", k=k, fs=[_b("f2"), _b("zz")])]
+    if t == "zset":
+        out["zrem_all"] = [_c("ZREM", k=k, ms=[_b("a"), _b("b")])]
+        out["zrem_1_1"] = [_c("ZREM", k=k, ms=[_b("b")]), _c("ZREM", k=k, ms=[_b("a")])]
+    return out
+
+
+def _recreators(k):
+    """commands that create k afresh and, by Redis' rules, leave it without a TTL"""
+    one = {"d": [1], "neg": False}
+    return {
+        "rpush": [_c("PUSH", k=k, left=False, vs=[_b("n")])],
+        "sadd": [_c("SADD", k=k, vs=[_b("n")])],
+        "hset": [_c("HSET", k=k, fs=[_b("n")], vs=[_b("1")])],
+        "zadd": [_c("ZADD", k=k, ms=[_b("n")], qs=[4], ch=False, gt=False, lt=False, nx=False, xx=False)],
+        "append": [_c("APPEND", k=k, v=_b("n"))],
+        "incr": [_c("INCRBY", k=k, d=one, dmin=False)],
+        "setbit": [_c("SETBIT", k=k, off=7, bit=1)],
+        "setrange": [_c("SETRANGE", k=k, off=2, neg=False, v=_b("n"))],
+        "hincrby": [_c("HINCRBY", k=k, f=_b("n"), d=one)],
+        "setnx": [_c("SETNX", k=k, v=_b("n"))],
+        "mset": [_c("MSET", ks=[k], vs=[_b("n")])],
+        "lmove_in": [_c("PUSH", k="src", left=False, vs=[_b("n")]), _c("LMOVE", k="src", k2=k, fromleft=True, toleft=True)],
+        "rename_in": [_c("SADD", k="src", vs=[_b("n")]), _c("RENAME", k="src", k2=k, nx=False)],
+    }
+
+
+def lifecycle_scenarios():
+    """A key with a TTL stops existing (every way its type offers) and its name is used again by a command that
+    must not give it a TTL: the old deadline must be gone (TTL -1, and the key outlives the old deadline)."""
+    out = []
+    k = "lc"
+    for t in ("string", "list", "set", "hash", "zset"):
+        for rname, rem in _removals(t, k).items():
+            for cname, rec in _recreators(k).items():
+                steps = _create(t, k) + [_c("EXPIRE", k=k, ms=100000, gt=False, lt=False, nx=False, xx=False)]
+                steps += rem + [_c("EXISTS", ks=[k]), _c("TTL", k=k)]
+                if rname == "rename_away":
+                    steps += [_c("TTL", k="other")]
+                steps += rec + [_c("TTL", k=k), _c("PTTL", k=k), _c("TYPE", k=k), {"tick": 99999}, _c("EXISTS", ks=[k]),
+                                {"tick": 2}, _c("EXISTS", ks=[k]), _c("TTL", k=k), _c("DBSIZE")]
+                out.append(steps)
+    return out
+
+
+def zset_tie_scenarios(seed, n=40):
+    """Sorted sets in which several members share a score, queried with every inclusive / exclusive bound at,
+    between and beyond the shared scores (ZCOUNT, ZRANGEBYSCORE with and without LIMIT, ZRANGE, ZRANK)."""
+    import random
+    rnd = random.Random(seed)
+    out = []
+    for _ in range(n):
+        k = "zt"
+        scores = sorted(rnd.sample([0, 2, 4, 6, 8, 10, 17, -4, -8], rnd.randint(1, 3)))
+        ms, qs = [], []
+        for i, q in enumerate(scores):
+            for j in range(rnd.choice([1, 2, 3, 4])):
+                ms.append(_b(chr(97 + i) + chr(97 + j)))
+                qs.append(q)
+        order = list(range(len(ms)))
+        rnd.shuffle(order)
+        steps = [_c("ZADD", k=k, ms=[ms[i] for i in order], qs=[qs[i] for i in order], ch=False, gt=False, lt=False, nx=False, xx=False)]
+        cand = sorted(set(scores + [scores[0] - 1, scores[-1] + 1] + [s + 1 for s in scores]))
+        bounds = [{"excl": e, "inf": 0, "q": q} for q in cand for e in (False, True)] + [{"excl": False, "inf": -1, "q": 0}, {"excl": False, "inf": 1, "q": 0}]
+        for _q in range(24):
+            lo, hi = rnd.choice(bounds), rnd.choice(bounds)
+            kind = rnd.randint(0, 3)
+            if kind == 0:
+                steps.append(_c("ZCOUNT", k=k, lo=lo, hi=hi))
+            else:
+                limit = kind == 3
+                steps.append(_c("ZRANGEBYSCORE", k=k, lo=lo, hi=hi, ws=rnd.random() < 0.5, limit=limit,
+                                off=rnd.choice([0, 0, 1, 2]) if limit else 0, cnt=rnd.choice([-1, 1, 2, 10]) if limit else 0))
+        steps += [_c("ZRANGE", k=k, rev=False, start=0, stop=-1, ws=True), _c("ZRANGE", k=k, rev=True, start=0, stop=-1, ws=False)]
+        for m in ms[:3]:
+            steps.append(_c("ZRANK", k=k, m=m))
+        out.append(steps)
+    return out
